@@ -134,15 +134,24 @@ def f12_class(a, m, Rg):
 
 
 def f12a_class(segments, a, m, Rg):
-    """F12_a: the diagram lists its (-inf, x] segment before its (.., inf) segment, the cycle lies in R > 1 and the
-    finite target lies beyond x (x < R_goal < 1)."""
-    order = [(l, r) for l, r, _ in segments]
-    first = [i for i, (l, r) in enumerate(order) if l == -INF]
-    last = [i for i, (l, r) in enumerate(order) if r == INF]
-    if not first or not last or first[0] > last[0]:
+    """F12_a: the cycle lies in R > 1, the finite target lies beyond the (-inf, x] segment (x < R_goal < 1), and pyLife's
+    tie-break between the (-inf, x] and the (.., inf) segment - both get the same 'distance' from the target - processes
+    (-inf, x] first.  The tie is broken by numpy's quicksort argsort (not stable: SIMD sorting networks), so the predicate
+    repeats that argsort on the same distance values instead of guessing from the row order."""
+    if not ((m + a) < 0.0 and Rg != -INF and Rg < 1.0):
         return False
-    x = order[first[0]][1]
-    return (m + a) < 0.0 and x < Rg < 1.0
+    A = [i for i, (l, r, _) in enumerate(segments) if l == -INF]
+    B = [i for i, (l, r, _) in enumerate(segments) if r == INF]
+    if not A or not B or not segments[A[0]][1] < Rg:
+        return False
+    qg = (1.0 + Rg) / (1.0 - Rg)
+    dist = []
+    for l, r, _ in segments:
+        mid = (l + r) / 2.0
+        dist.append((-1.0 if math.isinf(mid) else (1.0 + mid) / (1.0 - mid)) - qg)
+    left = [i for i, d in enumerate(dist) if d < 0.0]
+    order = [left[k] for k in np.argsort(np.array([dist[i] for i in left]), kind="quicksort")]
+    return A[0] in order and B[0] in order and order.index(A[0]) < order.index(B[0])
 
 
 def f12b_class(segments, a, m, Rg):
